@@ -1158,3 +1158,77 @@ def directed_struct_specs():
     _storage(s, "camera", W.ST("Camera"), 0, space="uniform")
     _compute_entry(s)
     return out
+
+
+# ---------------------------------------------------------------------------------------------
+# hostile identifiers (C01, opt-in): each case isolates one naming hazard so that signatures
+# stay stable.  All of them are valid WGSL for naga 24.
+
+
+def hostile_specs():
+    out = []
+
+    def base(tag):
+        s = ShaderSpec()
+        s.families = ["hostile", tag]
+        out.append(s)
+        return s
+
+    for kw in ("in", "dyn", "box"):
+        s = base("rust-keyword-member:" + kw)
+        s.structs["KwMember"] = W.StructDef("KwMember", [{"name": kw, "ty": W.V(4, "f32")}])
+        _storage(s, "buf", W.ST("KwMember"), 0)
+        _compute_entry(s)
+        s = base("rust-keyword-variable:" + kw)
+        _storage(s, kw, W.V(4, "f32"), 0)
+        _compute_entry(s)
+        s = base("rust-keyword-entry:" + kw)
+        _compute_entry(s, kw)
+    for name in ("VertexEntry", "FragmentEntry", "OverrideConstants"):
+        s = base("struct-named-like-helper:" + name)
+        s.structs[name] = W.StructDef(name, [{"name": "a", "ty": W.V(4, "f32"), "location": 0}])
+        e = Entry("vs_main", "vertex")
+        e.params = [{"name": "v", "struct": name}]
+        e.result = {"kind": "position"}
+        s.entries.append(e)
+        f = Entry("fs_main", "fragment")
+        f.result = {"kind": "location", "location": 0, "ty": "vec4<f32>"}
+        s.entries.append(f)
+        s.overrides.append({"name": "ov", "ty": "f32", "id": None, "default": "1.0"})
+    s = base("entry-names-differ-by-case")
+    _compute_entry(s, "main")
+    _compute_entry(s, "Main")
+    s = base("struct-names-equal-in-snake-case")
+    s.structs["VertexIn"] = W.StructDef("VertexIn", [{"name": "a", "ty": W.V(4, "f32"),
+                                                      "location": 0}])
+    s.structs["vertex_in"] = W.StructDef("vertex_in", [{"name": "b", "ty": W.V(4, "f32"),
+                                                       "location": 1}])
+    e = Entry("vs_main", "vertex")
+    e.params = [{"name": "x", "struct": "VertexIn"}, {"name": "y", "struct": "vertex_in"}]
+    e.result = {"kind": "position"}
+    s.entries.append(e)
+    for name in ("SOURCE", "bind_groups", "compute", "Vec", "Option", "String", "wgpu", "std",
+                 "Self_", "set_bind_groups", "create_shader_module"):
+        s = base("global-named:" + name)
+        _storage(s, name, W.V(4, "f32"), 0)
+        _compute_entry(s)
+    for name in ("Vec", "Option", "String", "Default", "Some", "BindGroup0", "ENTRY_MAIN"):
+        s = base("struct-named:" + name)
+        s.structs[name] = W.StructDef(name, [{"name": "a", "ty": W.V(4, "f32")}])
+        _storage(s, "buf", W.ST(name), 0)
+        _compute_entry(s)
+    s = base("serde-array-over-32")
+    s.structs["Big"] = W.StructDef("Big", [{"name": "a", "ty": W.A(W.V(4, "f32"), 33)}])
+    _storage(s, "buf", W.ST("Big"), 0)
+    _compute_entry(s)
+    s = base("bool-in-private-struct")
+    s.structs["Flags"] = W.StructDef("Flags", [{"name": "on", "ty": W.S("bool")},
+                                               {"name": "n", "ty": W.S("u32")}])
+    s.globals.append(Global("state", "private", ty=W.ST("Flags")))
+    _compute_entry(s)
+    s = base("f64-member")
+    s.structs["Dbl"] = W.StructDef("Dbl", [{"name": "x", "ty": W.S("f64")},
+                                           {"name": "v", "ty": W.V(2, "f64")}])
+    _storage(s, "buf", W.ST("Dbl"), 0)
+    _compute_entry(s)
+    return out
